@@ -151,9 +151,14 @@ def generate(r, in_fn, allow_exempt=False):
             # native (five or more elements): it is born forwarded, and has/index on a moved receiver rescan the stack, so
             # they find locals by identity even when those are grown lists themselves
             members = [r.choice(names) for _ in range(r.randint(5, 7))]
+            probe = r.choice(names)
+            moved = [name for name in names if variables[name].kind == "list" and variables[name].grown]
+            if moved and r.random() < 0.6:
+                # the searched value is itself a list that has moved, and it is a member
+                probe = r.choice(moved)
+                members[r.randrange(len(members))] = probe
             tname = "t%d" % len(body)
             body.append("let %s = [%s].iter().filter(|x| true).list();" % (tname, ", ".join(members)))
-            probe = r.choice(names)
             ids = [variables[m] for m in members]
             target = variables[probe]
             body.append("print(%s.has(%s), %s.index(%s), %s.len());" % (tname, probe, tname, probe, tname))
